@@ -19,7 +19,7 @@ META = {
         "so a law that holds for one backend holds for all of them."
     ),
     "trusted_base": ["rustc nightly front end and constant evaluator"],
-    "assumptions": ["x86_64 target"],
+    "assumptions": ["analysed targets: x86_64; aarch64 (NEON kernel) in the thorough tier"],
     "not_decided": ["symmetry, reflexivity and maximum of the bit-sliced body-distance kernel"],
 }
 
